@@ -160,57 +160,95 @@ Proof.
   - destruct (IHk f) as (c & r & E & I); [lia|]. exists c, r. split; [assumption|right; assumption].
 Qed.
 
-(* one call of read() on a field f that is followed by the end of the line or by a separator *)
+(* does a field fit into the window?  the field that ends the line may fill it exactly, any other must be shorter *)
+Definition fit1 (f : list ascii) (last : bool) : bool :=
+  if last then length f <=? bufmax else length f <? bufmax.
+
+(* one call of read() on a field f (of ANY length) that is followed by the end of the line or by a separator:
+   a field that fits is read exactly as parse_field says; a field that does not fit is always an error *)
 Lemma read_field : forall rd s f more t,
-  Inv rd s (f ++ more) t -> ~ In nl (f ++ more) -> ~ In sep f -> length f < bufmax ->
+  Inv rd s (f ++ more) t -> ~ In nl (f ++ more) -> ~ In sep f ->
   (more = [] \/ exists rem', more = sep :: rem') ->
-  match parse_field f with
+  match (if fit1 f (is_nil more) then parse_field f else None) with
   | Some v => exists rd' s', read rd s = (s', inr (v, rd')) /\ Inv rd' s' (tl more) t
   | None => exists e s', read rd s = (s', inl e) /\ Tail s' t
   end.
 Proof.
-  intros rd s f more t HI Hn Hs Hf Hm.
+  intros rd s f more t HI Hn Hs Hm.
   destruct (refill rd s _ t HI Hn) as (rd1 & s1 & Hre & HI1 & Hb1).
   pose proof (Inv_Tail _ _ _ _ HI1 Hn) as HT1.
   unfold Csv.read. rewrite Hre.
-  (* window contents *)
-  assert (Hw : buf rd1 = f /\ more = [] \/
-               exists rem', more = sep :: rem' /\ buf rd1 = f ++ sep :: firstn (bufmax - length f - 1) rem').
-  { destruct Hm as [->|(rem' & ->)].
-    - left. split; [|reflexivity]. rewrite Hb1, app_nil_r. apply firstn_all2. lia.
-    - right. exists rem'. split; [reflexivity|]. rewrite Hb1, firstn_app. rewrite firstn_all2 by lia.
-      destruct (bufmax - length f) as [|m] eqn:Em; [lia|]. replace (S m - 1) with m by lia. reflexivity. }
-  assert (Hrs : read_single (buf rd1) = read_single f).
-  { destruct Hw as [[-> _]|(rem' & _ & ->)]; [reflexivity|]. apply read_single_local. exact sep_not_num. }
-  rewrite Hrs. unfold Csv.parse_field.
-  destruct (read_single f) as [[v k]|] eqn:Ers.
-  2:{ exists EConversion, s1. split; [reflexivity|assumption]. }
-  pose proof (read_single_bound _ _ _ Ers) as Hk.
-  destruct (Nat.eqb_spec k (length f)) as [->|Hne].
-  - (* the number extends over the whole field *)
-    destruct HI1 as (lrest & Hs1 & Hrem & Hlen & Hkeep).
-    destruct Hw as [[Hbf ->]|(rem' & -> & Hbf)].
-    + rewrite Hbf, skipn_all. exists (mkR [] (keep rd1)), s1. split; [reflexivity|].
-      rewrite Hbf, app_nil_r in Hrem. rewrite <- (app_nil_r f) in Hrem at 1. apply app_inv_head in Hrem. subst lrest.
-      exists []. cbn [buf keep tl]. repeat split; try assumption. cbn; lia.
-    + rewrite Hbf, skipn_app_l, skipn_all by lia. cbn [app]. rewrite Ascii.eqb_refl.
-      eexists _, s1. split; [reflexivity|].
-      rewrite Hbf in Hrem. rewrite <- app_assoc in Hrem. apply app_inv_head in Hrem. cbn [app] in Hrem.
-      injection Hrem as Hrem'. exists lrest. cbn [buf keep tl]. repeat split; try assumption.
-      rewrite Hbf, app_length in Hlen. cbn [length] in Hlen. lia.
-  - (* it stops inside the field: the next character is not the separator *)
-    assert (Hlt : k < length f) by lia.
-    destruct (skipn_lt_cons _ _ Hlt) as (c & r & Esk & Hin).
-    assert (Hsk : exists r', skipn k (buf rd1) = c :: r').
-    { destruct Hw as [[-> _]|(rem' & _ & ->)].
-      - exists r; assumption.
-      - rewrite skipn_app_l by lia. rewrite Esk. eexists; reflexivity. }
-    destruct Hsk as (r' & ->).
-    replace (Ascii.eqb c sep) with false.
-    2:{ symmetry. apply Ascii.eqb_neq. intro; subst. contradiction. }
-    exists EUnexpected, s1. split; [reflexivity|assumption].
+  destruct HI1 as (lrest & Hs1 & Hrem & Hlen & Hkeep).
+  destruct (fit1 f (is_nil more)) eqn:Hfit; cbv beta iota.
+  - (* the field fits into the window *)
+    assert (Hw : (buf rd1 = f /\ more = [] /\ lrest = []) \/
+                 exists rem', more = sep :: rem' /\ length f < bufmax /\
+                              buf rd1 = f ++ sep :: firstn (bufmax - length f - 1) rem').
+    { destruct Hm as [->|(rem' & ->)]; unfold fit1 in Hfit; cbn [is_nil] in Hfit.
+      - apply Nat.leb_le in Hfit. left.
+        assert (E : buf rd1 = f) by (rewrite Hb1, app_nil_r; apply firstn_all2; lia).
+        split; [assumption|]. split; [reflexivity|].
+        rewrite E, app_nil_r in Hrem. rewrite <- (app_nil_r f) in Hrem at 1. apply app_inv_head in Hrem. auto.
+      - apply Nat.ltb_lt in Hfit. right. exists rem'. split; [reflexivity|]. split; [assumption|].
+        rewrite Hb1, firstn_app. rewrite firstn_all2 by lia.
+        destruct (bufmax - length f) as [|m] eqn:Em; [lia|]. replace (S m - 1) with m by lia. reflexivity. }
+    assert (Hrs : read_single (buf rd1) = read_single f).
+    { destruct Hw as [(-> & _)|(rem' & _ & _ & ->)]; [reflexivity|]. apply read_single_local. exact sep_not_num. }
+    rewrite Hrs. unfold Csv.parse_field.
+    destruct (read_single f) as [[v k]|] eqn:Ers.
+    2:{ exists EConversion, s1. split; [reflexivity|assumption]. }
+    pose proof (read_single_bound _ _ _ Ers) as Hk.
+    destruct (Nat.eqb_spec k (length f)) as [->|Hne].
+    + (* the number extends over the whole field *)
+      destruct Hw as [(Hbf & -> & ->)|(rem' & -> & Hlt & Hbf)].
+      * cbn [is_nil negb] in Hkeep. rewrite Hkeep, andb_false_r. rewrite Hbf, skipn_all.
+        exists (mkR [] false), s1. split; [reflexivity|].
+        exists []. cbn [buf keep tl]. repeat split; try assumption. cbn; lia.
+      * replace (length f =? length (buf rd1)) with false
+          by (symmetry; apply Nat.eqb_neq; rewrite Hbf, app_length; cbn [length]; lia).
+        cbn [andb]. rewrite Hbf, skipn_app_l, skipn_all by lia. cbn [app]. rewrite Ascii.eqb_refl.
+        eexists _, s1. split; [reflexivity|].
+        rewrite Hbf in Hrem. rewrite <- app_assoc in Hrem. apply app_inv_head in Hrem. cbn [app] in Hrem.
+        injection Hrem as Hrem'. exists lrest. cbn [buf keep tl]. repeat split; try assumption.
+        rewrite Hbf, app_length in Hlen. cbn [length] in Hlen. lia.
+    + (* it stops inside the field: the next character is not the separator *)
+      assert (Hlt : k < length f) by lia.
+      assert (Hge : length f <= length (buf rd1)).
+      { destruct Hw as [(-> & _)|(rem' & _ & _ & ->)]; [lia|rewrite app_length; lia]. }
+      replace (k =? length (buf rd1)) with false by (symmetry; apply Nat.eqb_neq; lia). cbn [andb].
+      destruct (skipn_lt_cons _ _ Hlt) as (c & r & Esk & Hin).
+      assert (Hsk : exists r', skipn k (buf rd1) = c :: r').
+      { destruct Hw as [(-> & _)|(rem' & _ & _ & ->)].
+        - exists r; assumption.
+        - rewrite skipn_app_l by lia. rewrite Esk. eexists; reflexivity. }
+      destruct Hsk as (r' & ->).
+      replace (Ascii.eqb c sep) with false.
+      2:{ symmetry. apply Ascii.eqb_neq. intro; subst. contradiction. }
+      exists EUnexpected, s1. split; [reflexivity|assumption].
+  - (* the field does not fit: the window holds bufmax bytes of it and the line continues *)
+    assert (Hlong : bufmax <= length f /\ bufmax < length (f ++ more)).
+    { unfold fit1 in Hfit. destruct Hm as [->|(rem' & ->)]; cbn [is_nil] in Hfit.
+      - apply Nat.leb_gt in Hfit. rewrite app_nil_r. lia.
+      - apply Nat.ltb_ge in Hfit. rewrite app_length. cbn [length]. lia. }
+    destruct Hlong as [Hl1 Hl2].
+    assert (Hbf : buf rd1 = firstn bufmax f).
+    { rewrite Hb1, firstn_app. replace (bufmax - length f) with 0 by lia. cbn [firstn]. apply app_nil_r. }
+    assert (Hbl : length (buf rd1) = bufmax) by (rewrite Hbf, firstn_length; lia).
+    assert (Hk1 : keep rd1 = true).
+    { rewrite Hkeep. destruct lrest; [|reflexivity]. exfalso.
+      rewrite app_nil_r in Hrem. rewrite Hrem in Hl2. lia. }
+    destruct (read_single (buf rd1)) as [[v k]|] eqn:Ers.
+    2:{ exists EConversion, s1. split; [reflexivity|assumption]. }
+    pose proof (read_single_bound _ _ _ Ers) as Hk.
+    destruct (Nat.eqb_spec k (length (buf rd1))) as [E|Hne].
+    + rewrite Hk1. cbn [andb]. exists ETooLong, s1. split; [reflexivity|assumption].
+    + cbn [andb]. assert (Hlt : k < length (buf rd1)) by lia.
+      destruct (skipn_lt_cons _ _ Hlt) as (c & r & -> & Hin).
+      replace (Ascii.eqb c sep) with false.
+      2:{ symmetry. apply Ascii.eqb_neq. intro; subst. apply Hs.
+          rewrite <- (firstn_skipn bufmax f). apply in_or_app. left. rewrite <- Hbf. assumption. }
+      exists EUnexpected, s1. split; [reflexivity|assumption].
 Qed.
-
 
 (* ---------------------------------------------------------------------------------------------- done / next_line *)
 Lemma done_empty rd s t : Inv rd s [] t -> done rd s = (s, true).
@@ -248,54 +286,62 @@ Proof.
 Qed.
 
 (* ---------------------------------------------------------------------------------------------- field lists *)
-Definition okf (f : list ascii) : Prop := ~ In sep f /\ length f < bufmax.
+Notation nosep := (fun f : list ascii => ~ In sep f).
 
 Lemma parse_field_nil : parse_field [] = None.
 Proof. unfold Csv.parse_field, Csv.read_single. rewrite parse_nil. reflexivity. Qed.
 
-(* read_row_std_vector's loop over a line given as its list of fields *)
-Lemma read_all_spec : forall fs, fs <> [] -> Forall okf fs ->
+(* read_row_std_vector's loop over a line given as its list of fields (of any lengths) *)
+Lemma read_all_spec : forall fs, fs <> [] -> Forall nosep fs ->
   forall t fuel rd s acc, ~ In nl (join sep fs) -> Inv rd s (join sep fs) t -> length fs < fuel ->
-  match mapM parse_field (drop_last_empty fs) with
+  match (if fitsb fs then mapM parse_field (drop_last_empty fs) else None) with
   | Some vs => exists rd' s', read_all parse sep fuel rd s acc = (s', inr (rev acc ++ vs, rd')) /\ Inv rd' s' [] t
   | None => exists e s', read_all parse sep fuel rd s acc = (s', inl e) /\ Tail s' t
   end.
 Proof.
   induction fs as [|f fs IH]; [congruence|]. intros _ Hok t fuel rd s acc Hn HI Hfuel.
-  inversion Hok as [|? ? [Hsep Hlen] Hok']; subst.
+  inversion Hok as [|? ? Hsep Hok']; subst.
   destruct fuel as [|fuel]; [cbn in Hfuel; lia|].
   destruct fs as [|f2 fs].
   - (* last field *)
-    cbn [join] in *. destruct f as [|c f].
-    + cbn [drop_last_empty is_nil mapM Csv.read_all]. rewrite (done_empty _ _ _ HI).
+    cbn [join fitsb] in *. destruct f as [|c f].
+    + cbn [length Nat.leb drop_last_empty is_nil mapM Csv.read_all]. rewrite (done_empty _ _ _ HI).
       exists rd, s. rewrite app_nil_r. split; [reflexivity|assumption].
     + cbn [drop_last_empty is_nil mapM Csv.read_all].
       rewrite (done_nonempty _ _ _ _ HI) by (assumption || discriminate).
       assert (HI' : Inv rd s ((c :: f) ++ []) t) by (rewrite app_nil_r; assumption).
       assert (Hn' : ~ In nl ((c :: f) ++ [])) by (rewrite app_nil_r; assumption).
-      pose proof (read_field rd s (c :: f) [] t HI' Hn' Hsep Hlen (or_introl eq_refl)) as HR.
-      destruct (parse_field (c :: f)) as [v|].
-      * destruct HR as (rd' & s' & -> & HInv'). cbn [tl] in HInv'.
-        destruct fuel as [|fuel]; [cbn in Hfuel; lia|]. cbn [Csv.read_all].
-        rewrite (done_empty _ _ _ HInv'). exists rd', s'. split; [reflexivity|assumption].
+      pose proof (read_field rd s (c :: f) [] t HI' Hn' Hsep (or_introl eq_refl)) as HR.
+      unfold fit1 in HR. cbn [is_nil] in HR.
+      destruct (length (c :: f) <=? bufmax).
+      * destruct (parse_field (c :: f)) as [v|].
+        -- destruct HR as (rd' & s' & -> & HInv'). cbn [tl] in HInv'.
+           destruct fuel as [|fuel]; [cbn in Hfuel; lia|]. cbn [Csv.read_all].
+           rewrite (done_empty _ _ _ HInv'). exists rd', s'. split; [reflexivity|assumption].
+        -- destruct HR as (e & s' & -> & HT). exists e, s'. split; [reflexivity|assumption].
       * destruct HR as (e & s' & -> & HT). exists e, s'. split; [reflexivity|assumption].
   - (* a field followed by a separator *)
     change (join sep (f :: f2 :: fs)) with (f ++ sep :: join sep (f2 :: fs)) in *.
     change (drop_last_empty (f :: f2 :: fs)) with (f :: drop_last_empty (f2 :: fs)).
+    change (fitsb (f :: f2 :: fs)) with ((length f <? bufmax) && fitsb (f2 :: fs)).
     cbn [mapM Csv.read_all].
     rewrite (done_nonempty _ _ _ _ HI) by (assumption || (destruct f; discriminate)).
-    pose proof (read_field rd s f _ t HI Hn Hsep Hlen (or_intror (ex_intro _ _ eq_refl))) as HR.
+    pose proof (read_field rd s f _ t HI Hn Hsep (or_intror (ex_intro _ _ eq_refl))) as HR.
+    unfold fit1 in HR. cbn [is_nil] in HR.
     assert (Hn2 : ~ In nl (join sep (f2 :: fs))).
     { intro; apply Hn; apply in_or_app; right; right; assumption. }
+    destruct (length f <? bufmax); cbn [andb].
+    2:{ destruct HR as (e & s' & -> & HT). exists e, s'. split; [reflexivity|assumption]. }
     destruct (parse_field f) as [v|].
     + destruct HR as (rd' & s' & -> & HInv'). cbn [tl] in HInv'.
       assert (Hf2 : length (f2 :: fs) < fuel) by (cbn [length] in *; lia).
       specialize (IH ltac:(discriminate) Hok' t fuel rd' s' (v :: acc) Hn2 HInv' Hf2).
+      destruct (fitsb (f2 :: fs)); [|assumption].
       destruct (mapM parse_field (drop_last_empty (f2 :: fs))) as [vs|].
       * destruct IH as (rd'' & s'' & -> & HI''). exists rd'', s''. split; [|assumption].
         cbn [rev]. rewrite <- app_assoc. reflexivity.
       * assumption.
-    + destruct HR as (e & s' & -> & HT). exists e, s'. split; [reflexivity|assumption].
+    + destruct HR as (e & s' & -> & HT). destruct (fitsb (f2 :: fs)); exists e, s'; (split; [reflexivity|assumption]).
 Qed.
 
 (* the fixed-size loop *)
@@ -305,7 +351,7 @@ Fixpoint spec_fix (n : nat) (fs : list (list ascii)) : option (list V) :=
   | S n' => match fs with
             | [] => None
             | f :: fs' =>
-                match parse_field f with
+                match (if fit1 f (is_nil fs') then parse_field f else None) with
                 | None => None
                 | Some v => match spec_fix n' (match fs' with [] => [[]] | _ => fs' end) with
                             | Some vs => Some (v :: vs)
@@ -315,10 +361,7 @@ Fixpoint spec_fix (n : nat) (fs : list (list ascii)) : option (list V) :=
             end
   end.
 
-Lemma okf_nil : okf [].
-Proof. split; [intros []|]. cbn. apply bufmax_pos. Qed.
-
-Lemma read_n_spec : forall n fs t rd s acc, fs <> [] -> Forall okf fs -> ~ In nl (join sep fs) ->
+Lemma read_n_spec : forall n fs t rd s acc, fs <> [] -> Forall nosep fs -> ~ In nl (join sep fs) ->
   Inv rd s (join sep fs) t ->
   match spec_fix n fs with
   | Some vs => exists rd' s', read_n parse sep n rd s acc = (s', inr (rev acc ++ vs, rd')) /\ Inv rd' s' [] t
@@ -330,19 +373,20 @@ Proof.
     + exists rd, s. rewrite app_nil_r. split; [reflexivity|assumption].
     + cbn [finish_row]. destruct (next_line_nonempty _ _ _ _ HI ltac:(discriminate) Hn) as (s' & -> & HT).
       exists ENotConsumed, s'. split; [reflexivity|assumption].
-  - destruct fs as [|f fs]; [congruence|]. inversion Hok as [|? ? [Hsep Hlen] Hok']; subst.
+  - destruct fs as [|f fs]; [congruence|]. inversion Hok as [|? ? Hsep Hok']; subst.
     cbn [spec_fix Csv.read_n].
     set (fs2 := match fs with [] => [[]] | _ => fs end).
     set (more := match fs with [] => [] | _ => sep :: join sep fs end).
     assert (Ej : join sep (f :: fs) = f ++ more) by (destruct fs; [symmetry; apply app_nil_r|reflexivity]).
     assert (Et : tl more = join sep fs2) by (destruct fs; reflexivity).
+    assert (En : is_nil more = is_nil fs) by (destruct fs; reflexivity).
     rewrite Ej in HI, Hn.
     assert (Hm : more = [] \/ exists rem', more = sep :: rem') by (destruct fs; [left|right; eexists]; reflexivity).
-    pose proof (read_field rd s f more t HI Hn Hsep Hlen Hm) as HR.
-    destruct (parse_field f) as [v|].
+    pose proof (read_field rd s f more t HI Hn Hsep Hm) as HR. rewrite En in HR.
+    destruct (if fit1 f (is_nil fs) then parse_field f else None) as [v|].
     + destruct HR as (rd' & s' & -> & HInv'). rewrite Et in HInv'.
       assert (Hne2 : fs2 <> []) by (destruct fs; discriminate).
-      assert (Hok2 : Forall okf fs2) by (destruct fs; [constructor; [apply okf_nil|constructor]|assumption]).
+      assert (Hok2 : Forall nosep fs2) by (destruct fs; [constructor; [intros []|constructor]|assumption]).
       assert (Hn2 : ~ In nl (join sep fs2)).
       { rewrite <- Et. intro Hi. apply Hn. apply in_or_app. right. destruct more; [destruct Hi|right; assumption]. }
       specialize (IH fs2 t rd' s' (v :: acc) Hne2 Hok2 Hn2 HInv').
@@ -354,29 +398,37 @@ Proof.
 Qed.
 
 Lemma spec_fix_eq : forall fs n, fs <> [] ->
-  spec_fix n fs = match mapM parse_field (drop_last_empty fs) with
-                  | Some vs => if length vs =? n then Some vs else None
-                  | None => None
-                  end.
+  spec_fix n fs = if fitsb fs then
+                    match mapM parse_field (drop_last_empty fs) with
+                    | Some vs => if length vs =? n then Some vs else None
+                    | None => None
+                    end
+                  else None.
 Proof.
   induction fs as [|f fs IH]; [congruence|]. intros n _. destruct fs as [|f2 fs].
-  - destruct f as [|c f]; cbn [drop_last_empty is_nil mapM].
-    + destruct n; cbn [spec_fix join is_nil length Nat.eqb]; [reflexivity|]. rewrite parse_field_nil. reflexivity.
+  - cbn [fitsb]. destruct f as [|c f]; cbn [drop_last_empty is_nil mapM].
+    + cbn [length Nat.leb]. destruct n; cbn [spec_fix join is_nil length Nat.eqb]; [reflexivity|].
+      rewrite parse_field_nil. destruct (fit1 [] true); reflexivity.
     + destruct n; cbn [spec_fix join is_nil].
-      * destruct (parse_field (c :: f)); reflexivity.
-      * destruct (parse_field (c :: f)); [|reflexivity].
-        destruct n; cbn [spec_fix join is_nil length Nat.eqb]; [reflexivity|]. rewrite parse_field_nil. reflexivity.
-  - change (drop_last_empty (f :: f2 :: fs)) with (f :: drop_last_empty (f2 :: fs)). cbn [mapM].
+      * destruct (length (c :: f) <=? bufmax); [|reflexivity]. destruct (parse_field (c :: f)); reflexivity.
+      * unfold fit1. destruct (length (c :: f) <=? bufmax); [|reflexivity].
+        destruct (parse_field (c :: f)); [|reflexivity].
+        destruct n; cbn [spec_fix join is_nil length Nat.eqb]; [reflexivity|].
+        rewrite parse_field_nil. destruct (fit1 [] true); reflexivity.
+  - change (drop_last_empty (f :: f2 :: fs)) with (f :: drop_last_empty (f2 :: fs)).
+    change (fitsb (f :: f2 :: fs)) with ((length f <? bufmax) && fitsb (f2 :: fs)). cbn [mapM].
     destruct n.
     + cbn [spec_fix]. change (join sep (f :: f2 :: fs)) with (f ++ sep :: join sep (f2 :: fs)).
-      rewrite is_nil_app_cons. destruct (parse_field f); [|reflexivity].
+      rewrite is_nil_app_cons. destruct ((length f <? bufmax) && fitsb (f2 :: fs)); [|reflexivity].
+      destruct (parse_field f); [|reflexivity].
       destruct (mapM parse_field (drop_last_empty (f2 :: fs))); reflexivity.
-    + cbn [spec_fix]. destruct (parse_field f); [|reflexivity].
+    + cbn [spec_fix is_nil]. unfold fit1. destruct (length f <? bufmax); cbn [andb]; [|reflexivity].
       rewrite (IH n) by discriminate.
+      destruct (parse_field f); [|destruct (fitsb (f2 :: fs)); reflexivity].
+      destruct (fitsb (f2 :: fs)); [|reflexivity].
       destruct (mapM parse_field (drop_last_empty (f2 :: fs))) as [vs|]; [|reflexivity].
       cbn [length Nat.eqb]. destruct (length vs =? n); reflexivity.
 Qed.
-
 
 (* ---------------------------------------------------------------------------------------------- split / join *)
 Lemma split_nonnil : forall l, split sep l <> [].
@@ -478,37 +530,43 @@ Proof.
 Qed.
 
 (* ---------------------------------------------------------------------------------------------- whole rows *)
-(* a row: comment lines (any length), then the data line, then its newline, then the rest of the stream *)
+(* a row: comment lines (any length), then the data line, then its newline, then the rest of the stream.
+   row_wf puts NO bound on field lengths; row_ok adds "every field fits the window" *)
+Definition row_wf (cs : list (list ascii)) (line : list ascii) : Prop :=
+  Forall (fun c => ~ In nl c) cs /\ ~ In nl line /\ (forall r, line <> hash :: r) /\ (line = [] -> cs = []).
 Definition row_ok (cs : list (list ascii)) (line : list ascii) : Prop :=
-  Forall (fun c => ~ In nl c) cs /\ ~ In nl line /\ (forall r, line <> hash :: r) /\ (line = [] -> cs = []) /\
-  Forall (fun f => length f < bufmax) (split sep line).
+  row_wf cs line /\ fitsb (split sep line) = true.
 
-Lemma row_fields_ok cs line : row_ok cs line -> Forall okf (split sep line).
+Lemma lt_fitsb : forall fs, Forall (fun f => length f < bufmax) fs -> fitsb fs = true.
 Proof.
-  intros (_ & _ & _ & _ & Hl). pose proof (split_no_sep line) as Hs.
-  induction Hl as [|f fs Hf Hl IH]; [constructor|]. inversion Hs; subst. constructor; [split; assumption|auto].
+  induction fs as [|f fs IH]; intro H; [reflexivity|]. inversion H; subst. destruct fs as [|f2 fs].
+  - cbn [fitsb]. apply Nat.leb_le. lia.
+  - change (fitsb (f :: f2 :: fs)) with ((length f <? bufmax) && fitsb (f2 :: fs)).
+    rewrite IH by assumption. rewrite (proj2 (Nat.ltb_lt _ _)) by assumption. reflexivity.
 Qed.
 
-Theorem read_row_std_vector_spec : forall cs line t, row_ok cs line ->
-  match spec_row parse sep line with
+(* MAIN: for every well-formed row, whatever the field lengths, the chunked reader = the specification with the
+   over-long-token rule (spec_row64): same numbers and stream at the next row, or a read error with the row's
+   newline and everything behind it untouched *)
+Theorem read_row_std_vector_spec64 : forall cs line t, row_wf cs line ->
+  match spec_row64 parse sep line with
   | Some vs => read_row_std_vector parse sep (gs (comment_block cs ++ line ++ nl :: t)) = (gs t, inr vs)
   | None => exists e s', read_row_std_vector parse sep (gs (comment_block cs ++ line ++ nl :: t)) = (s', inl e) /\ Tail s' t
   end.
 Proof.
-  intros cs line t Hrow. pose proof (row_fields_ok _ _ Hrow) as Hok.
-  destruct Hrow as (Hcs & Hn & Hh & He & _).
+  intros cs line t (Hcs & Hn & Hh & He).
   destruct line as [|a l].
   - rewrite (He eq_refl). reflexivity.
   - unfold read_row_std_vector.
     destruct (skip_comments_spec cs (a :: l) t Hcs Hn ltac:(discriminate) Hh) as (rd1 & s1 & -> & HI).
     rewrite <- (join_split (a :: l)) in HI, Hn.
-    unfold spec_row, fields.
-    pose proof (read_all_spec (split sep (a :: l)) (split_nonnil _) Hok t
+    unfold spec_row64, spec_row, fields.
+    pose proof (read_all_spec (split sep (a :: l)) (split_nonnil _) (split_no_sep _) t
                   (S (S (length (rest (gs (comment_block cs ++ (a :: l) ++ nl :: t)))))) rd1 s1 [] Hn HI) as HR.
     assert (Hfuel : length (split sep (a :: l)) < S (S (length (rest (gs (comment_block cs ++ (a :: l) ++ nl :: t)))))).
     { cbn [rest gs]. rewrite !app_length. pose proof (split_length (a :: l)). cbn [length] in *. lia. }
     specialize (HR Hfuel).
-    destruct (mapM parse_field (drop_last_empty (split sep (a :: l)))) as [vs|].
+    destruct (if fitsb (split sep (a :: l)) then mapM parse_field (drop_last_empty (split sep (a :: l))) else None) as [vs|].
     + destruct HR as (rd' & s' & -> & HI'). cbn [finish_row rev app]. rewrite (next_line_empty _ _ _ HI'). reflexivity.
     + destruct HR as (e & s' & -> & HT). exists e, s'. split; [reflexivity|assumption].
 Qed.
@@ -516,17 +574,17 @@ Qed.
 Lemma take_line_nl n t : take_line n (nl :: t) = ([], nl :: t).
 Proof. destruct n; reflexivity. Qed.
 
-Theorem read_row_impl_spec : forall n cs line t, row_ok cs line ->
-  match spec_row_n parse sep n line with
+Theorem read_row_impl_spec64 : forall n cs line t, row_wf cs line ->
+  match spec_row64_n parse sep n line with
   | Some vs => read_row_impl parse sep n (gs (comment_block cs ++ line ++ nl :: t)) = (gs t, inr vs)
   | None => exists e s', read_row_impl parse sep n (gs (comment_block cs ++ line ++ nl :: t)) = (s', inl e) /\ Tail s' t
   end.
 Proof.
-  intros n cs line t Hrow. pose proof (row_fields_ok _ _ Hrow) as Hok.
-  destruct Hrow as (Hcs & Hn & Hh & He & _).
+  intros n cs line t (Hcs & Hn & Hh & He).
   destruct line as [|a l].
   - rewrite (He eq_refl). destruct n; [reflexivity|].
-    cbn [comment_block flat_map app]. unfold spec_row_n, spec_row, fields. cbn [split drop_last_empty is_nil mapM length Nat.eqb].
+    cbn [comment_block flat_map app]. unfold spec_row64_n, spec_row_n, spec_row, fields.
+    cbn [split fitsb length Nat.leb drop_last_empty is_nil mapM length Nat.eqb].
     unfold read_row_impl. change (skip_comments reader0 (gs (nl :: t))) with (gs (nl :: t), @inr err reader reader0).
     cbn [Csv.read_n]. unfold Csv.read, Csv.read_chunk. cbn [keep reader0 failb gs buf length].
     replace (0 =? bufmax) with false by (symmetry; apply Nat.eqb_neq; pose proof bufmax_pos; lia).
@@ -535,14 +593,71 @@ Proof.
   - unfold read_row_impl.
     destruct (skip_comments_spec cs (a :: l) t Hcs Hn ltac:(discriminate) Hh) as (rd1 & s1 & -> & HI).
     rewrite <- (join_split (a :: l)) in HI, Hn.
-    pose proof (read_n_spec n (split sep (a :: l)) t rd1 s1 [] (split_nonnil _) Hok Hn HI) as HR.
+    pose proof (read_n_spec n (split sep (a :: l)) t rd1 s1 [] (split_nonnil _) (split_no_sep _) Hn HI) as HR.
     rewrite spec_fix_eq in HR by apply split_nonnil.
-    unfold spec_row_n, spec_row, fields.
+    unfold spec_row64_n, spec_row_n, spec_row, fields.
+    destruct (fitsb (split sep (a :: l))); [|assumption].
     destruct (mapM parse_field (drop_last_empty (split sep (a :: l)))) as [vs|].
     + destruct (length vs =? n).
       * destruct HR as (rd' & s' & -> & HI'). cbn [finish_row rev app]. rewrite (next_line_empty _ _ _ HI'). reflexivity.
       * assumption.
     + assumption.
+Qed.
+
+(* corollary 1: every field fits => plain "split at sep, parse every field completely" *)
+Theorem read_row_std_vector_spec : forall cs line t, row_ok cs line ->
+  match spec_row parse sep line with
+  | Some vs => read_row_std_vector parse sep (gs (comment_block cs ++ line ++ nl :: t)) = (gs t, inr vs)
+  | None => exists e s', read_row_std_vector parse sep (gs (comment_block cs ++ line ++ nl :: t)) = (s', inl e) /\ Tail s' t
+  end.
+Proof.
+  intros cs line t (Hwf & Hfit). pose proof (read_row_std_vector_spec64 cs line t Hwf) as H.
+  unfold spec_row64 in H. rewrite Hfit in H. exact H.
+Qed.
+
+Theorem read_row_impl_spec : forall n cs line t, row_ok cs line ->
+  match spec_row_n parse sep n line with
+  | Some vs => read_row_impl parse sep n (gs (comment_block cs ++ line ++ nl :: t)) = (gs t, inr vs)
+  | None => exists e s', read_row_impl parse sep n (gs (comment_block cs ++ line ++ nl :: t)) = (s', inl e) /\ Tail s' t
+  end.
+Proof.
+  intros n cs line t (Hwf & Hfit). pose proof (read_row_impl_spec64 n cs line t Hwf) as H.
+  unfold spec_row64_n in H. rewrite Hfit in H. exact H.
+Qed.
+
+(* corollary 2: an over-long token is rejected with a read error by both readers *)
+Theorem overlong_rejected : forall cs line t, row_wf cs line -> fitsb (split sep line) = false ->
+  (exists e s', read_row_std_vector parse sep (gs (comment_block cs ++ line ++ nl :: t)) = (s', inl e) /\ Tail s' t) /\
+  (forall n, exists e s', read_row_impl parse sep n (gs (comment_block cs ++ line ++ nl :: t)) = (s', inl e) /\ Tail s' t).
+Proof.
+  intros cs line t Hwf Hfit. split.
+  - pose proof (read_row_std_vector_spec64 cs line t Hwf) as H. unfold spec_row64 in H. rewrite Hfit in H. exact H.
+  - intro n. pose proof (read_row_impl_spec64 n cs line t Hwf) as H. unfold spec_row64_n in H. rewrite Hfit in H. exact H.
+Qed.
+
+(* corollary 3: never silently altered numbers — whatever the field lengths, numbers that are returned are exactly
+   the numbers the row denotes, and the stream then stands at the next row *)
+Theorem no_silent_alteration : forall cs line t, row_wf cs line ->
+  (forall s' vs, read_row_std_vector parse sep (gs (comment_block cs ++ line ++ nl :: t)) = (s', inr vs) ->
+     spec_row parse sep line = Some vs /\ s' = gs t) /\
+  (forall n s' vs, read_row_impl parse sep n (gs (comment_block cs ++ line ++ nl :: t)) = (s', inr vs) ->
+     spec_row parse sep line = Some vs /\ length vs = n /\ s' = gs t).
+Proof.
+  intros cs line t Hwf. split.
+  - intros s' vs H. pose proof (read_row_std_vector_spec64 cs line t Hwf) as HS. unfold spec_row64 in HS.
+    destruct (fitsb (split sep line)).
+    + destruct (spec_row parse sep line) as [ws|].
+      * rewrite HS in H. inversion H; subst. split; reflexivity.
+      * destruct HS as (e & s'' & HS & _). rewrite HS in H. discriminate.
+    + destruct HS as (e & s'' & HS & _). rewrite HS in H. discriminate.
+  - intros n s' vs H. pose proof (read_row_impl_spec64 n cs line t Hwf) as HS. unfold spec_row64_n, spec_row_n in HS.
+    destruct (fitsb (split sep line)).
+    + destruct (spec_row parse sep line) as [ws|].
+      * destruct (Nat.eqb_spec (length ws) n).
+        -- rewrite HS in H. inversion H; subst. repeat split; reflexivity.
+        -- destruct HS as (e' & s'' & HS & _). rewrite HS in H. discriminate.
+      * destruct HS as (e & s'' & HS & _). rewrite HS in H. discriminate.
+    + destruct HS as (e & s'' & HS & _). rewrite HS in H. discriminate.
 Qed.
 
 End Proofs.
@@ -696,14 +811,13 @@ Proof.
   destruct vs as [|v vs].
   - split; [reflexivity|]. intros Hsn cs Hcs He. rewrite (He eq_refl).
     repeat split; try (constructor; fail); try (intros []; fail); try discriminate.
-    constructor; [cbn; apply bufmax_pos|constructor].
   - assert (Hne : map pe (v :: vs) <> []) by discriminate.
     assert (Hsplit := split_join_toks _ Hne Hsepfree).
     split.
     + unfold spec_row, fields. rewrite Hsplit.
       rewrite drop_last_empty_id by (apply Forall_forall; intros f Hf; apply in_map_iff in Hf; destruct Hf as (w & <- & _); apply pe_nonnil).
       apply mapM_pe.
-    + intros Hsn cs Hcs _. unfold row_ok. rewrite Hsplit. repeat split; try assumption.
+    + intros Hsn cs Hcs _. unfold row_ok, row_wf. rewrite Hsplit. repeat split; try assumption.
       * apply join_num; [assumption|congruence|].
         apply Forall_forall. intros f Hf. apply in_map_iff in Hf. destruct Hf as (w & <- & _).
         apply notin_of_notnum; [assumption|apply pe_num].
@@ -712,7 +826,7 @@ Proof.
         assert (c0 = hash) by (destruct (map pe vs); cbn in E; congruence). subst c0. congruence.
       * intro E. exfalso. destruct (pe v) eqn:Ep; [eapply pe_nonnil; eassumption|]. cbn [map] in E. rewrite Ep in E.
         destruct (map pe vs); discriminate.
-      * apply Forall_forall. intros f Hf. apply in_map_iff in Hf. destruct Hf as (w & <- & _).
+      * apply lt_fitsb. apply Forall_forall. intros f Hf. apply in_map_iff in Hf. destruct Hf as (w & <- & _).
         unfold print_elem. pose proof (to_chars_short w). destruct (neg_or_nan w); cbn [length]; lia.
 Qed.
 
@@ -755,7 +869,7 @@ Hypothesis plus_num : numch plus = true.
 
 (* whatever the outcome, the bytes behind this row's newline are untouched: after success the stream IS the next
    row; after a read error, clear()+ignore(max,'\n') puts it there *)
-Theorem next_row_unaffected : forall cs line t, row_ok sep cs line ->
+Theorem next_row_unaffected : forall cs line t, row_wf cs line ->
   (forall s' r, read_row_std_vector parse sep (gs (comment_block cs ++ line ++ nl :: t)) = (s', r) ->
      match r with inr _ => s' = gs t | inl _ => rest (resync s') = t end) /\
   (forall n s' r, read_row_impl parse sep n (gs (comment_block cs ++ line ++ nl :: t)) = (s', r) ->
@@ -763,13 +877,13 @@ Theorem next_row_unaffected : forall cs line t, row_ok sep cs line ->
 Proof.
   intros cs line t Hrow. split.
   - intros s' r H.
-    pose proof (read_row_std_vector_spec parse sep numch parse_bound parse_local sep_not_num plus_num cs line t Hrow) as HS.
-    destruct (spec_row parse sep line).
+    pose proof (read_row_std_vector_spec64 parse sep numch parse_bound parse_local sep_not_num plus_num cs line t Hrow) as HS.
+    destruct (spec_row64 parse sep line).
     + rewrite HS in H. inversion H; subst. reflexivity.
     + destruct HS as (e & s'' & HS & HT). rewrite HS in H. inversion H; subst. apply Tail_resync. assumption.
   - intros n s' r H.
-    pose proof (read_row_impl_spec parse sep numch parse_bound parse_local parse_nil sep_not_num plus_num n cs line t Hrow) as HS.
-    destruct (spec_row_n parse sep n line).
+    pose proof (read_row_impl_spec64 parse sep numch parse_bound parse_local parse_nil sep_not_num plus_num n cs line t Hrow) as HS.
+    destruct (spec_row64_n parse sep n line).
     + rewrite HS in H. inversion H; subst. reflexivity.
     + destruct HS as (e & s'' & HS & HT). rewrite HS in H. inversion H; subst. apply Tail_resync. assumption.
 Qed.
@@ -785,26 +899,18 @@ End NextRow.
 Definition comma : ascii := ","%char.
 Definition overlong_line : list ascii := "1"%char :: repeat "0"%char 70.
 
-(* the faithful model reproduces the defect: a 71-byte field is cut at the 64-byte window and both halves are
-   returned as numbers *)
-Lemma overlong_token_split :
-  read_row_std_vector parse_bigint comma (gs (overlong_line ++ [nl])) = (gs [], inr [10 ^ 63; 0]%Z) /\
-  spec_row parse_bigint comma overlong_line = Some [10 ^ 70]%Z.
-Proof. vm_compute. split; reflexivity. Qed.
+(* the former defect ("1" followed by 70 zeros was returned as [1e63, 0]) is now a read error; the newline stays *)
+Lemma overlong_token_now_rejected :
+  read_row_std_vector parse_bigint comma (gs (overlong_line ++ [nl])) = (gs (repeat "0"%char 7 ++ [nl]), inl ETooLong) /\
+  read_row_impl parse_bigint comma 2 (gs (overlong_line ++ [nl])) = (gs (repeat "0"%char 7 ++ [nl]), inl ETooLong) /\
+  spec_row64 parse_bigint comma overlong_line = None.
+Proof. vm_compute. repeat split; reflexivity. Qed.
 
-Lemma overlong_token_refuted_lemma :
-  exists (line t : list ascii) (vs : list Z),
-    ~ In nl line /\ (forall r, line <> hash :: r) /\
-    read_row_std_vector parse_bigint comma (gs (line ++ nl :: t)) = (gs t, inr vs) /\
-    spec_row parse_bigint comma line <> Some vs.
-Proof.
-  exists overlong_line, [], [10 ^ 63; 0]%Z. destruct overlong_token_split as [H1 H2].
-  split; [|split; [|split]].
-  - intro H. vm_compute in H. repeat (destruct H as [H|H]; [discriminate|]). exact H.
-  - intros r E. discriminate.
-  - exact H1.
-  - rewrite H2. intro E. vm_compute in E. discriminate.
-Qed.
+(* boundary: a 64-byte field is accepted when it ends the line, rejected when a separator follows *)
+Lemma window_filling_field :
+  read_row_std_vector parse_bigint comma (gs (repeat "0"%char 63 ++ ["7"%char; nl])) = (gs [], inr [7%Z]) /\
+  (exists s', read_row_std_vector parse_bigint comma (gs (repeat "0"%char 63 ++ ["7"%char; comma; "1"%char; nl])) = (s', inl ETooLong)).
+Proof. split; [vm_compute; reflexivity|eexists; vm_compute; reflexivity]. Qed.
 
 (* non-vacuity: a 89-byte row behind a 101-byte comment satisfies row_ok and is read back *)
 Definition nv_comment : list ascii := repeat "x"%char 100.
@@ -819,14 +925,12 @@ Qed.
 
 Lemma nv_row_ok : row_ok comma [nv_comment] nv_line.
 Proof.
-  unfold row_ok. split; [|split; [|split; [|split]]].
+  unfold row_ok, row_wf. split; [split; [|split; [|split]]|].
   - constructor; [|constructor]. apply forallb_notin. vm_compute. reflexivity.
   - apply forallb_notin. vm_compute. reflexivity.
   - intros r E. vm_compute in E. discriminate.
   - intro E. vm_compute in E. discriminate.
-  - apply Forall_forall. intros f Hf.
-    assert (Hb : forallb (fun f => length f <? bufmax) (split comma nv_line) = true) by (vm_compute; reflexivity).
-    rewrite forallb_forall in Hb. apply Nat.ltb_lt. apply Hb. assumption.
+  - vm_compute. reflexivity.
 Qed.
 
 Lemma nv_reads :
